@@ -378,9 +378,63 @@ fn giant_patterns(ctx: &Ctx, rep: &mut Report) {
     }
 }
 
+/// Anti-hash inputs for the Rabin-Karp path: a window whose bytes all differ
+/// from the pattern but whose hash is equal. Thue-Morse words of length 2^k
+/// and their complements collide under every polynomial hash modulo 2^64 with
+/// an odd multiplier (k >= 10); for a shift-and-add hash any two windows that
+/// agree on their last 64 bytes collide. A searcher that trusts its hash
+/// reports the look-alike.
+fn hash_collisions(ctx: &Ctx, rep: &mut Report) {
+    let mut cases: Vec<(Vec<Vec<u8>>, Vec<u8>)> = vec![];
+    for k in [10usize, 11] {
+        let n = 1usize << k;
+        let tm: Vec<u8> = (0..n).map(|i: usize| if i.count_ones() % 2 == 0 { b'a' } else { b'b' }).collect();
+        let co: Vec<u8> = tm.iter().map(|&b| if b == b'a' { b'b' } else { b'a' }).collect();
+        let mut hay = b"zz".to_vec();
+        hay.extend_from_slice(&co);
+        hay.extend_from_slice(b"zz");
+        hay.extend_from_slice(&tm);
+        hay.extend_from_slice(b"zz");
+        cases.push((vec![tm.clone()], hay.clone()));
+        cases.push((vec![tm.clone(), b"qq".to_vec(), co[..n / 2].to_vec()], hay));
+    }
+    // same last 64 bytes, different head
+    let tail: Vec<u8> = (0..64).map(|i| b'c' + (i % 5) as u8).collect();
+    let mut p1 = b"HEAD-one-".to_vec();
+    p1.extend_from_slice(&tail);
+    let mut look = b"head+TWO+".to_vec();
+    look.extend_from_slice(&tail);
+    let mut hay = b"..".to_vec();
+    hay.extend_from_slice(&look);
+    hay.extend_from_slice(b"....");
+    hay.extend_from_slice(&p1);
+    cases.push((vec![p1.clone()], hay.clone()));
+    cases.push((vec![p1, b"zzzzzzzzzzzzzzzzzzzzzzzzzzzzzzzzzzzzzzzzzzzzzzzzzzzzzzzzzzzzzzzzzzzzzzzzz".to_vec()], hay));
+    for (k, (pats, hay)) in cases.iter().enumerate() {
+        if !ctx.mine(k) {
+            continue;
+        }
+        for &kind in &[Kind::LeftmostFirst, Kind::LeftmostLongest] {
+            for &v in &Variant::ALL {
+                let s = match guard(|| build(pats, kind, v)) {
+                    Ok(Some(s)) => s,
+                    _ => continue,
+                };
+                let imp = implementation(&s);
+                let l = hay.len();
+                let ml = pats.iter().map(|p| p.len()).min().unwrap_or(0).min(4);
+                check_one(rep, pats, kind, v, &s, &imp, ml, hay, (0, l));
+                check_one(rep, pats, kind, v, &s, &imp, ml, hay, (1, l - 1));
+                rep.tally("hash_collision_cases");
+            }
+        }
+    }
+}
+
 pub fn run(ctx: &Ctx, rep: &mut Report) {
     near_miss_sweep(ctx, rep);
     giant_patterns(ctx, rep);
+    hash_collisions(ctx, rep);
     let n = ctx.tier.pick(4, 700, 100_000);
     for_each_case(ctx, rep, n, &mut |rep, pats, kind, v, s, imp, ml, hay, sp| {
         check_one(rep, pats, kind, v, s, imp, ml, hay, sp)
